@@ -3,7 +3,7 @@ Require Import ExtrOcamlBasic.
 From Coq Require Import NArith List.
 From Snap.Codec Require Import Varint.
 From Snap.Crc Require Import CrcModel.
-From Snap.Hash Require Import Words Murmur3 Spooky2 BlockSize.
+From Snap.Hash Require Import Words Murmur3 Spooky2 BlockSize HashSelect.
 Extraction Language OCaml.
 Set Extraction Optimize.
 Extraction "../ocaml/C16/c16_ext.ml"
@@ -11,4 +11,4 @@ Extraction "../ocaml/C16/c16_ext.ml"
   Varint.sputbs Varint.sgetbs Varint.sgetbs_oob Varint.getc
   CrcModel.crc_bytes CrcModel.crc32c_spec CrcModel.crc_table CrcModel.crc32c_gen_plain CrcModel.crc32c_gen
   CrcModel.crc32c_x86_plain CrcModel.crc32c_x86 CrcModel.hw_crc32b CrcModel.stream_crc_chunks CrcModel.stream_crc_stream
-  Murmur3.murmur3_x86_128 Spooky2.spooky2_128 Words.vec_data BlockSize.file_block_size.
+  Murmur3.murmur3_x86_128 Spooky2.spooky2_128 Words.vec_data BlockSize.file_block_size HashSelect.block_hash HashSelect.blockcmp HashSelect.rehash_conf.
